@@ -1,5 +1,5 @@
 #!/bin/bash
 # tools/sweep.sh <tier> [ids...]  - run the checks of a tier one after the other, one summary line each
 TIER=${1:-quick}; shift
-IDS=${@:-C01 C02 C03 C04 C05 C06 C08 C09 C10 C11 C12 C13 C14 C15 C16 C17 C18 C19 C20}
+IDS=${@:-C01 C02 C03 C04 C05 C06 C07 C08 C09 C10 C11 C12 C13 C14 C15 C16 C17 C18 C19 C20}
 for p in $IDS; do s=$(date +%s); ./check $p --tier $TIER > /tmp/sweep_${TIER}_$p.log 2>&1; rc=$?; e=$(date +%s); echo "$p rc=$rc $((e-s))s $(tail -1 /tmp/sweep_${TIER}_$p.log | cut -c1-140)"; done
